@@ -30,7 +30,30 @@ Definition pins : list string := ["usim/_primitives/task.py:try_close";
   "usim/_primitives/task.py:NotDone.<attrs>";
   "usim/_primitives/context.py:Scope.do";
   "usim/_primitives/context.py:Scope.__child_finished__";
-  "usim/_primitives/context.py:Scope.__cancel__"].
+  "usim/_primitives/context.py:Scope.__cancel__";
+  "usim/_primitives/context.py:<module>";
+  "usim/_primitives/context.py:CancelScope.<attrs>";
+  "usim/_primitives/context.py:CancelScope.__init__";
+  "usim/_primitives/context.py:InterruptScope.<attrs>";
+  "usim/_primitives/context.py:InterruptScope.__aenter__";
+  "usim/_primitives/context.py:InterruptScope.__init__";
+  "usim/_primitives/context.py:InterruptScope._disable_interrupts";
+  "usim/_primitives/context.py:InterruptScope._is_suppressed";
+  "usim/_primitives/context.py:Scope.<attrs>";
+  "usim/_primitives/context.py:Scope.__aenter__";
+  "usim/_primitives/context.py:Scope.__aexit__";
+  "usim/_primitives/context.py:Scope.__init__";
+  "usim/_primitives/context.py:Scope._await_children";
+  "usim/_primitives/context.py:Scope._close_children";
+  "usim/_primitives/context.py:Scope._close_scope";
+  "usim/_primitives/context.py:Scope._close_volatile";
+  "usim/_primitives/context.py:Scope._collect_exceptions";
+  "usim/_primitives/context.py:Scope._disable_interrupts";
+  "usim/_primitives/context.py:Scope._is_suppressed";
+  "usim/_primitives/context.py:Scope._propagate_exceptions";
+  "usim/_primitives/context.py:ScopeClosed.<attrs>";
+  "usim/_primitives/context.py:ScopeClosed.__init__";
+  "usim/_primitives/context.py:until"].
 (** the functions the model of C06 was transcribed from are unchanged in /repo *)
 Lemma src_unchanged : forallb pin_ok pins = true.
 Proof. vm_compute. reflexivity. Qed.
